@@ -1191,7 +1191,7 @@ class FilteredDirectoryContentsTask : public Task {
     // Exit the loop if we encounter any errors, to prevent infinitely looping
     // over an invalid directory in some circumstances. rdar://101717159
     std::error_code ec;
-    for (auto it = llvm::sys::fs::directory_iterator(path, ec),
+    for (auto it = llvm::sys::fs::directory_iterator(path, ec, /*follow_symlinks */false),
          end = llvm::sys::fs::directory_iterator(); it != end && !ec;
          it = it.increment(ec)) {
       std::string filename = llvm::sys::path::filename(it->path());
